@@ -78,7 +78,7 @@ def _one_patch(prop, variant, base, tmp):
     name, kind, patch = variant
     root = Path(tmp) / (f"{prop}_" + name.replace(":", "_").replace("/", "_"))
     shutil.copytree(base / "beyond", root / "beyond", ignore=shutil.ignore_patterns("__pycache__"))
-    r = subprocess.run(["git", "apply", str(patch)], cwd=str(root), capture_output=True, text=True)
+    r = subprocess.run(["git", "apply", "--include=beyond/*", str(patch)], cwd=str(root), capture_output=True, text=True)
     if r.returncode:
         r = subprocess.run(["patch", "-p1", "-s", "--no-backup-if-mismatch", "-i", str(patch)], cwd=str(root), capture_output=True, text=True)
         if r.returncode:
